@@ -11,7 +11,7 @@ import (
 
 // C03 — each request goes to exactly one next hop chosen by fixed precedence (DESIGN.md §4 C03).
 
-const c03Names = `svc.example.com, carol@pbx.example.com,[0-9]+@num\.example\.com ,urn:service:sos,tel:\+1555.*`
+const c03Names = `svc.example.com, carol@pbx.example.com,[0-9]+@num\.example\.com ,urn:service:sos,tel:\+1555.*,^@atonly\.example\.com$,^noat\.example\.com$`
 
 var c03Spec *EnumSpec
 
@@ -91,6 +91,8 @@ func c03Msg(s *EnumSpec, v []int) *WMsg {
 		"user-at-host": "sip:carol@pbx.example.com", "wrong-user": "sip:dave@pbx.example.com", "urn": "urn:service:sos", "tel": "tel:+15551234",
 		"listener": "sip:127.0.0.1:" + lport, "listener-noport": "sip:127.0.0.1", "listener-wrong-port": "sip:127.0.0.1:5099", "substring-user": "sip:xcarol@pbx.example.com",
 		"service-host-nouser": "sip:svc.example.com;transport=udp",
+		// Request-URIs without a user part against regular-expression names: the subject is "@host"
+		"nouser-regex-with-at": "sip:atonly.example.com", "nouser-regex-without-at": "sip:noat.example.com",
 	}[s.Val(v, "ruri")]
 	tr := strings.ToUpper(s.Val(v, "arrival"))
 	var body []byte
@@ -254,7 +256,7 @@ func init() {
 			{Name: "hoplr", Vals: []string{"lr", "none"}},
 			{Name: "tohost", Vals: []string{"nomatch", "exact", "wildcard", "exact-under-wildcard", "wildcard-second-dest", "exact-third-dest"}},
 			{Name: "table", Vals: []string{"no-default", "default-udp", "default-tls", "empty"}, Quick: 2},
-			{Name: "ruri", Vals: []string{"foreign", "service-host", "regex-only", "user-at-host", "wrong-user", "urn", "tel", "listener", "listener-noport", "listener-wrong-port", "substring-user", "service-host-nouser"}, Quick: 9},
+			{Name: "ruri", Vals: []string{"foreign", "service-host", "regex-only", "user-at-host", "wrong-user", "urn", "tel", "listener", "listener-noport", "listener-wrong-port", "nouser-regex-with-at", "nouser-regex-without-at", "substring-user", "service-host-nouser"}, Quick: 12},
 			{Name: "keep", Vals: []string{"off", "true", "Yes", "0"}, Quick: 2},
 			{Name: "arrival", Vals: []string{"udp", "tcp"}},
 			{Name: "names", Vals: []string{"list", "single", "anything"}, Quick: 2},
@@ -306,7 +308,7 @@ func init() {
 		}
 		return false
 	}
-	addCheck(&Check{ID: "C03", Level: "exploration",
+	addCheck(&Check{Flows: []flowOracle{flowExactlyOnce(true)}, ID: "C03", Level: "exploration",
 		Rule:   "complete product of the decision-table features (Route shape x next-hop URI host/port/transport/lr x To host (no match, exact, wildcard, exact under a wildcard, second / third destination of a multi-destination entry) x static table x Request-URI class x keep-next-hop x arrival transport x service-name list x backends x history prelude {none, next hop learned, the same request received earlier through the other listener} x body {none, 2000 bytes}), each case on a fresh world started through the real startProxy, and a second pass in which all cases of one configuration are fed one after the other into ONE long-lived world (history independence of the decision); the oracle inspects the set of ALL packets and connection attempts the simulated network saw until quiescence; non-trivial = the request is not simply dropped",
 		Assume: []string{"service-name patterns are matched with Go's regexp in both the code and the reference (trusted)", "hosts are IPv4 literals or host-table names (stated domain)"},
 		Run: func(c *Ctx) {
